@@ -4,6 +4,7 @@ package c11
 // mem-fs and a scripted in-process target that judges per-invocation consistency.
 
 import (
+	"bytes"
 	"encoding/json"
 	"fmt"
 	"net/http"
@@ -73,6 +74,9 @@ func build(c Case, viol *violations) (*built, error) {
 		result = map[string]any{"type": "jsonlines", "sink": map[string]any{"type": "file", "path": b.outFile}}
 	} else {
 		result = map[string]any{"type": "phout", "destination": b.outFile, "id": true}
+		if c.QueueSize > 0 {
+			result["sample-queue-size"] = c.QueueSize
+		}
 	}
 	var gun, ammo map[string]any
 	var err error
@@ -141,13 +145,24 @@ func rpsConf(c Case) any {
 
 func startupConf(c Case) any {
 	st := c.Startup
+	var conf any
 	switch {
 	case st == nil:
-		return map[string]any{"type": "once", "times": c.Instances}
+		conf = map[string]any{"type": "once", "times": c.Instances}
 	case st.Kind == "instance_step":
-		return map[string]any{"type": "instance_step", "from": st.From, "to": c.Instances, "step": st.Step, "stepduration": fmt.Sprintf("%dms", st.StepMs)}
+		conf = map[string]any{"type": "instance_step", "from": st.From, "to": c.Instances, "step": st.Step, "stepduration": fmt.Sprintf("%dms", st.StepMs)}
+	default:
+		conf = sectionConfs(st.Sections)
 	}
-	return sectionConfs(st.Sections)
+	if c.StartDelayMs > 0 {
+		// a pause (a const section without tokens) before the first instance
+		pause := sectionConfs([]Section{{Type: "const", DurMs: c.StartDelayMs}})
+		if l, ok := conf.([]any); ok {
+			return append(pause, l...)
+		}
+		return append(pause, conf)
+	}
+	return conf
 }
 
 func think(c Case) {
@@ -160,8 +175,69 @@ func think(c Case) {
 
 const ammoHost = "ammo.example.net"
 
-func entryBody(i int) []byte {
-	return []byte(fmt.Sprintf("body-of-entry-%d-%s", i, strings.Repeat("x", i%5)))
+// entryLetter is the filler of entry i's big body / pad header: no two entries of a file share it.
+func entryLetter(i int) byte { return byte('A' + i%26) }
+
+// entryBody: the body of entry i. Big bodies (BodyKiB) differ per entry in length and in every byte after the head.
+func entryBody(p *Plain, i int) []byte {
+	if p.BodyKiB <= 0 {
+		return []byte(fmt.Sprintf("body-of-entry-%d-%s", i, strings.Repeat("x", i%5)))
+	}
+	head := fmt.Sprintf("body-of-entry-%d-", i)
+	return append([]byte(head), bytes.Repeat([]byte{entryLetter(i)}, p.BodyKiB*1024+i*101)...)
+}
+
+func entryPad(p *Plain, i int) string { return strings.Repeat(string(entryLetter(i)), p.PadHeader) }
+
+// describeBytes renders a (possibly long) byte string for a message: runs of one byte are written as <n x 'c'>.
+func describeBytes(b []byte) string {
+	if len(b) <= 120 {
+		return fmt.Sprintf("%q", b)
+	}
+	var sb strings.Builder
+	fmt.Fprintf(&sb, "%d bytes: ", len(b))
+	parts := 0
+	for i := 0; i < len(b) && parts < 12; parts++ {
+		j := i
+		for j < len(b) && b[j] == b[i] {
+			j++
+		}
+		if j-i >= 8 {
+			fmt.Fprintf(&sb, "<%d x %q>", j-i, string(b[i]))
+			i = j
+			continue
+		}
+		// a stretch without long runs
+		k := i
+		for k < len(b) && k-i < 40 {
+			r := k
+			for r < len(b) && b[r] == b[k] {
+				r++
+			}
+			if r-k >= 8 {
+				break
+			}
+			k = r
+		}
+		k = min(k, i+40)
+		fmt.Fprintf(&sb, "%q", b[i:k])
+		i = k
+	}
+	if parts >= 12 {
+		sb.WriteString("...")
+	}
+	return sb.String()
+}
+
+// firstDiff: the offset at which two byte strings begin to differ.
+func firstDiff(a, b []byte) int {
+	n := min(len(a), len(b))
+	for i := 0; i < n; i++ {
+		if a[i] != b[i] {
+			return i
+		}
+	}
+	return n
 }
 
 func buildHTTP(c Case, b *built, viol *violations) (gun, ammo map[string]any, err error) {
@@ -184,7 +260,7 @@ func buildHTTP(c Case, b *built, viol *violations) (gun, ammo map[string]any, er
 		e := ag.Entry{Method: "GET", URI: fmt.Sprintf("/e%d?entry=%d", i, i), Tag: fmt.Sprintf("t%d", i)}
 		if hasBody {
 			e.Method = "POST"
-			e.Body = entryBody(i)
+			e.Body = entryBody(p, i)
 		}
 		switch p.Format {
 		case "uri", "uripost":
@@ -192,12 +268,19 @@ func buildHTTP(c Case, b *built, viol *violations) (gun, ammo map[string]any, er
 		default:
 			e.Host = ammoHost
 			e.Headers = []ag.KV{{K: "X-Entry", V: strconv.Itoa(i)}}
+			if p.PadHeader > 0 {
+				e.Headers = append(e.Headers, ag.KV{K: "X-Pad", V: entryPad(p, i)})
+			}
 		}
 		ee := e
 		f.Items = append(f.Items, ag.Item{Entry: &ee})
 	}
 	data := f.Render()
 	b.text = string(data)
+	if p.big() {
+		b.text = fmt.Sprintf("(%s file of %d bytes: %d entries, entry i carries a body of %d KiB + i*101 bytes of the letter 'A'+i after the head \"body-of-entry-i-\" and a header X-Pad of %d such letters)",
+			p.Format, len(data), p.Entries, p.BodyKiB, p.PadHeader)
+	}
 	name := writeFile(b, "c11ammo", ".ammo", data)
 
 	tg := target.NewHTTP(false)
@@ -222,8 +305,13 @@ func buildHTTP(c Case, b *built, viol *violations) (gun, ammo map[string]any, er
 		if got := r.Header.Get("X-Common"); got != "cfg" {
 			viol.add("target: request for entry %d arrived with configured header X-Common=%q, expected \"cfg\"", i, got)
 		}
-		if hasBody && string(r.Body) != string(entryBody(i)) {
-			viol.add("target: request for entry %d arrived with body %q, the ammo says %q", i, r.Body, entryBody(i))
+		if want := entryBody(p, i); hasBody && !bytes.Equal(r.Body, want) {
+			viol.add("target: request for entry %d arrived with a body that differs from the ammo at offset %d: got %s, the ammo says %s: the ammo was altered after the instance acquired it", i, firstDiff(r.Body, want), describeBytes(r.Body), describeBytes(want))
+		}
+		if p.PadHeader > 0 {
+			if got := r.Header.Get("X-Pad"); got != entryPad(p, i) {
+				viol.add("target: request for entry %d arrived with a header X-Pad that differs from the ammo at offset %d: got %s, the ammo says %s", i, firstDiff([]byte(got), []byte(entryPad(p, i))), describeBytes([]byte(got)), describeBytes([]byte(entryPad(p, i))))
+			}
 		}
 		if wantHost != "" && r.Host != wantHost {
 			viol.add("target: request for entry %d arrived with Host %q, the ammo file says %q", i, r.Host, wantHost)
